@@ -210,7 +210,7 @@ func ruleSnapshotList(p *Prog, r *Report, rule string) {
 		okv := false
 		instrs(fn, func(_ *ssa.BasicBlock, _ int, in ssa.Instruction) {
 			if ret, ok := in.(*ssa.Return); ok && len(ret.Results) == 1 {
-				if isFieldLoad(retValue(ret, ret.Results[0]), tSnapElem, "seq") {
+				if mOriginAny(func(v ssa.Value) bool { return isFieldLoad(v, tSnapElem, "seq") })(retValue(ret, ret.Results[0])) {
 					okv = true
 				}
 			}
